@@ -164,7 +164,89 @@ func c05(raw json.RawMessage, resp *drv.Response) error {
 		}
 		return nil
 	}
+	if req.Part == "gadget" {
+		return c05Gadget(resp)
+	}
 	return fmt.Errorf("unknown part %q", req.Part)
+}
+
+// c05Gadget: the adversarial alternatives at every hint of every base gadget, on operand CLASSES chosen so that the alternative
+// passes whatever width check a weakened gadget might still apply (tiny remainders, tiny inverses, zero results): a second
+// accepted result at gadget level is a violation wherever the gadget is used.
+func c05Gadget(resp *drv.Response) error {
+	pm1 := new(big.Int).Sub(bigP, one)
+	inv3 := new(big.Int).ModInverse(big.NewInt(3), bigP)
+	type gcase struct {
+		g  Gadget
+		in []*big.Int
+	}
+	cases := []gcase{
+		{Gadget{Kind: "mul"}, []*big.Int{pm1, pm1}},                     // remainder 1, large quotient
+		{Gadget{Kind: "sub"}, []*big.Int{big.NewInt(5), big.NewInt(5)}}, // x - x: remainder 0, quotient x
+		{Gadget{Kind: "sub"}, []*big.Int{pm1, pm1}},
+		{Gadget{Kind: "add"}, []*big.Int{pm1, big.NewInt(2)}},             // wraps once: remainder 1
+		{Gadget{Kind: "muladd"}, []*big.Int{two32, two32, big.NewInt(0)}}, // 2^64 = p + 2^32 - 1
+		{Gadget{Kind: "muladd"}, []*big.Int{pm1, big.NewInt(2), big.NewInt(3)}},
+		{Gadget{Kind: "reduce"}, []*big.Int{new(big.Int).Add(bigP, one)}},
+		{Gadget{Kind: "reduce"}, []*big.Int{new(big.Int).Mul(bigP, pow2(100))}}, // remainder 0, 100-bit quotient
+		{Gadget{Kind: "inverse"}, []*big.Int{inv3}},                             // inverse 3: inverse + p still fits 64 bits
+		{Gadget{Kind: "inverse"}, []*big.Int{big.NewInt(2)}},
+		{Gadget{Kind: "inverse"}, []*big.Int{pm1}},
+		{Gadget{Kind: "rangecheck"}, []*big.Int{new(big.Int).Sub(bigP, two32)}}, // hi = 2^32 - 2, lo = 1
+		{Gadget{Kind: "rangecheck"}, []*big.Int{two32}},
+		{Gadget{Kind: "rangecheck"}, []*big.Int{big.NewInt(7)}},
+	}
+	for _, gc := range cases {
+		for _, hint := range []string{"MulAddHint", "ReduceHint", "SplitLimbsHint", "InverseHint"} {
+			strats := map[string][]string{"MulAddHint": {"k1", "q-1", "q+1", "solve"}, "ReduceHint": {"k1", "k2", "q-1", "q+1", "solve"},
+				"SplitLimbsHint": {"hi-1", "hi+1"}, "InverseHint": {"inv+p", "inv+1", "zero"}}[hint]
+			for occ := 0; occ < 3; occ++ {
+				for _, st := range strats {
+					seen, applied, trivial := 0, false, false
+					var sub []*big.Int
+					cfg := &engine.Config{Mode: engine.Native, Permissive: true}
+					cfg.Strategy = func(h *engine.HintCall) []*big.Int {
+						if h.Name != hint {
+							return nil
+						}
+						seen++
+						if seen-1 != occ {
+							return nil
+						}
+						applied = true
+						out := hintStrategy(st, h)
+						if out == nil {
+							trivial = true
+							return nil
+						}
+						same := h.Honest != nil
+						for i := range out {
+							if same && new(big.Int).Mod(out[i], bigR).Cmp(h.Honest[i]) != 0 {
+								same = false
+							}
+						}
+						trivial = same
+						sub = out
+						return out
+					}
+					_, err := runGadget(cfg, gc.g, gc.in, nil)
+					if !applied {
+						break
+					}
+					key := fmt.Sprintf("gadget/%s/%v/%s#%d/%s", gc.g.Kind, strsOf(gc.in), hint, occ, st)
+					resp.Count(key, trivial)
+					if !trivial && err == nil {
+						resp.Violate(fmt.Sprintf("c05/gadget/accepted gadget=%s hint=%s strat=%s", gc.g.Kind, hint, st),
+							fmt.Sprintf("%s%v: substituting %v at occurrence %d of %s satisfies all constraints of the gadget (a second result is accepted)", gc.g.Kind, strsOf(gc.in), strsOf(sub), occ, hint), map[string]any{"gadget": gc.g.Kind, "in": strsOf(gc.in), "hint": hint, "occ": occ, "strat": st})
+					}
+					if len(resp.Samples) < 8 && !trivial {
+						resp.Sample(map[string]any{"gadget": gc.g.Kind, "in": strsOf(gc.in), "hint": hint, "occ": occ, "strat": st, "outcome": hc.Outcome(err)})
+					}
+				}
+			}
+		}
+	}
+	return nil
 }
 
 func leafVals(vs []gl.Variable) []*big.Int {
